@@ -1332,3 +1332,41 @@ def national_summary_weights_replay(correlated=False):
         out["exc"] = f"{type(e).__name__}: {e}"
         out["ok"] = False
     return out
+
+
+def unit_interval_floor_replay(pi_method="nonparametric", alpha=0.9):
+    """REAL conformal estimator, unit level: outstanding units that have ALREADY counted more votes than the model's upper
+    bound -- prediction, lower and upper bound must all be at least the counted votes (and whole numbers)"""
+    from elexmodel.models.GaussianElectionModel import GaussianElectionModel
+    from elexmodel.models.NonparametricElectionModel import NonparametricElectionModel
+
+    rng = np.random.default_rng(11)
+    n_rep, n_non = 60, 8
+
+    def frame(n, rep):
+        last = rng.integers(500, 5000, n).astype(float)
+        df = pd.DataFrame({"postal_code": "AA", "geographic_unit_fips": [f"{'r' if rep else 'n'}{i}" for i in range(n)], "reporting": int(rep), "unit_category": "expected"})
+        df["last_election_results_turnout"] = last + 1
+        if rep:
+            df["results_turnout"] = np.round(last * (1 + rng.normal(-0.3, 0.03, n)))  # the reporting units are DOWN 30%
+        else:
+            df["results_turnout"] = np.round(last * np.where(np.arange(n) % 2 == 0, 1.2, 0.1))  # half of them already above last time
+        df["residuals_turnout"] = (df["results_turnout"] - df["last_election_results_turnout"]) / df["last_election_results_turnout"]
+        return df
+
+    rep, non = frame(n_rep, True), frame(n_non, False)
+    out = {"exc": None}
+    try:
+        m = (NonparametricElectionModel if pi_method == "nonparametric" else GaussianElectionModel)({"save_conformalization": False} if pi_method == "gaussian" else {})
+        preds, _ = m.get_unit_predictions(rep, non, "turnout")
+        pi = m.get_unit_prediction_intervals(rep, non, alpha, "turnout")
+        res = non.results_turnout.to_numpy()
+        lo, up, pr = np.asarray(pi.lower, dtype=float), np.asarray(pi.upper, dtype=float), np.asarray(preds, dtype=float)
+        bad = [i for i in range(n_non) if lo[i] < res[i] or up[i] < res[i] or pr[i] < res[i]]
+        out["violations"] = [{"unit": int(i), "counted": float(res[i]), "pred": float(pr[i]), "lower": float(lo[i]), "upper": float(up[i])} for i in bad[:3]]
+        out["whole"] = bool(np.all(lo == np.round(lo)) and np.all(up == np.round(up)))
+        out["ok"] = bool(not bad and out["whole"])
+    except Exception as e:  # noqa
+        out["exc"] = f"{type(e).__name__}: {e}"
+        out["ok"] = False
+    return out
